@@ -1,4 +1,4 @@
-"""C20 -- completion proposals (clauses R20.1-R20.15)."""
+"""C20 -- completion proposals (clauses R20.1-R20.17)."""
 from __future__ import annotations
 
 import ast
